@@ -18,9 +18,9 @@ from harness.props import compare_common as cc
 MANIFEST = dict(
     category="proof",
     technique="Lean 4 theorems over a hand-written model of the compare engine + differential correspondence with the implementation",
-    text="see notes/C10.md; filled in by the worker at hand-in",
-    note="",
-    design_ref="5/C10",
+    text='Lean theorems for every option record, flag record and both entry points: C10_xpath_match_spec / _zero / _pos / C10_str_vs_tuple (a pattern matches iff the parts after its last empty part equal the last parts of the path case-insensitively with * for one part; the result is the 1-based index of the first matching pattern; a str argument equals the one-element tuple); C10_exclude (the run with exclude_xpaths reports exactly the entries of the unrestricted run for which no tested prefix - one ending at a dictionary key, or the path of a list - matches, one line per remaining entry: both inclusions); C10_compare_only (entries located at dictionary entries are kept iff their path matches, entries located at list items are untouched). Transform: see notes/C10.md for what is proved (direct entry point, LeafTransform) - in keyed mode list items are paired by str() of the untransformed value (known finding C10-a, cex theorem). The model (lean/N0Verif/Model/Compare.lean) follows n0dict.compare/direct_compare, n0list.compare/direct_compare, xpath_match, generate_composite_keys, update_extend and the flag machine branch by branch for the code WITH fix patches C07-a, C08-a, C09-a applied; it is compared with the implementation on generated pairs of trees (verdict, entry sets with rendered paths and values, number of prose lines, exception class) and the statement itself is executed on the implementation with Python-side oracles.',
+    note='str.lower() is modelled for ASCII (patterns/keys) and Latin-1 (transform lower); transform functions come from the family identity/lower/constant/numeric truncation (float lexemes of the form [-]d+.d+).',
+    design_ref='5/C10',
 )
 
 EVAL = {}
